@@ -8,9 +8,9 @@ From Verif Require Import Base.Prelude.
 Local Open Scope N_scope.
 
 Section Model.
-  Context {name : Type} (neqb : name -> name -> bool).
+  Context {name pid : Type} (neqb : name -> name -> bool).
   Definition path := list name.
-  Variable gm : bool -> N -> path -> bool.
+  Variable gm : bool -> pid -> path -> bool.
 
   Definition is_nil {A} (l : list A) : bool := match l with [] => true | _ => false end.
   Definition path_eqb : path -> path -> bool := list_eqb neqb.
@@ -105,21 +105,21 @@ Section Model.
 
   (** * GlobsMatcher (matchers.rs:238-345). A node's value is the set of patterns registered
       for that directory ([None] = no [RegexSet]). *)
-  Definition globs_tree (pats : list (path * N)) : tree (option (list N)) :=
+  Definition globs_tree (pats : list (path * pid)) : tree (option (list pid)) :=
     fold_left (fun t dp =>
                  add_modify None (fun v => match v with
                                            | None => Some [snd dp]
                                            | Some l => Some (l ++ [snd dp])
                                            end) (fst dp) t)
               pats (Node None []).
-  Definition is_match (pm : bool) (pats : list N) (tail : path) : bool :=
+  Definition is_match (pm : bool) (pats : list pid) (tail : path) : bool :=
     existsb (fun pid => gm pm pid tail) pats.
   Fixpoint take_while {A} (f : A -> bool) (l : list A) : list A :=
     match l with
     | [] => []
     | x :: r => if f x then x :: take_while f r else []
     end.
-  Definition globs_matches (pm : bool) (t : tree (option (list N))) (file : path) : bool :=
+  Definition globs_matches (pm : bool) (t : tree (option (list pid))) (file : path) : bool :=
     existsb (fun e => match value (fst e) with
                       | Some pats => is_match pm pats (snd e)
                       | None => false
@@ -128,7 +128,7 @@ Section Model.
   Definition visit_is_nothing (v : visit) : bool :=
     match v with VNothing => true | _ => false end.
   Fixpoint globs_visit_loop (pm : bool) (max_visit : visit)
-           (w : list (tree (option (list N)) * path)) : visit :=
+           (w : list (tree (option (list pid)) * path)) : visit :=
     match w with
     | [] => max_visit
     | (sub, tail) :: r =>
@@ -143,7 +143,7 @@ Section Model.
             else globs_visit_loop pm max_visit r
         end
     end.
-  Definition globs_visit (pm : bool) (t : tree (option (list N))) (dir : path) : visit :=
+  Definition globs_visit (pm : bool) (t : tree (option (list pid))) (dir : path) : visit :=
     globs_visit_loop pm VNothing (walk t dir).
 
   (** * Combinators (matchers.rs:374-520), arm by arm *)
@@ -205,7 +205,7 @@ Section Model.
   | MEverything
   | MFiles (files : list path)
   | MPrefix (prefixes : list path)
-  | MGlobs (prefix_mode : bool) (pats : list (path * N))
+  | MGlobs (prefix_mode : bool) (pats : list (path * pid))
   | MUnion (a b : mexpr)
   | MIntersection (a b : mexpr)
   | MDifference (wanted unwanted : mexpr).
@@ -216,7 +216,7 @@ Section Model.
   | BEverything
   | BFiles (t : tree files_kind)
   | BPrefix (t : tree prefix_kind)
-  | BGlobs (pm : bool) (t : tree (option (list N)))
+  | BGlobs (pm : bool) (t : tree (option (list pid)))
   | BUnion (a b : matcher)
   | BIntersection (a b : matcher)
   | BDifference (wanted unwanted : matcher).
@@ -313,14 +313,14 @@ Arguments VSet {name} l.
 Arguments AllRecursively {name}.
 Arguments Specific {name} dirs files.
 Arguments VNothing {name}.
-Arguments MNothing {name}.
-Arguments MEverything {name}.
-Arguments MFiles {name} files.
-Arguments MPrefix {name} prefixes.
-Arguments MGlobs {name} prefix_mode pats.
-Arguments MUnion {name} a b.
-Arguments MIntersection {name} a b.
-Arguments MDifference {name} wanted unwanted.
+Arguments MNothing {name pid}.
+Arguments MEverything {name pid}.
+Arguments MFiles {name pid} files.
+Arguments MPrefix {name pid} prefixes.
+Arguments MGlobs {name pid} prefix_mode pats.
+Arguments MUnion {name pid} a b.
+Arguments MIntersection {name pid} a b.
+Arguments MDifference {name pid} wanted unwanted.
 
 (** * Correspondence case (names are numbers) *)
 Definition npath := list N.
@@ -331,7 +331,7 @@ Definition gm_table (tbl : list (bool * N * npath)) (pm : bool) (pid : N) (tail 
                     && list_eqb N.eqb (snd e) tail) tbl.
 
 Record case := mk_case {
-  c_expr : @mexpr N;
+  c_expr : @mexpr N N;
   c_globs : list (bool * N * npath);       (* glob oracle: (prefix_mode, pattern, tail) that match *)
   c_matches : list (npath * bool);         (* impl: matcher.matches(path) *)
   c_visits : list (npath * @visit N);      (* impl: matcher.visit(dir) *)
